@@ -14,7 +14,7 @@ def fingerprint_terms(ctx):
     ref = ctx.repo.mod("fingerprint_url").func("fingerprint_url")
     ctx.fn(ref.qualname)
     ex = P.Extractor(ctx.repo, atomic=atomic, split_like={"ural.normalize_url.normalize_url"})
-    rets = ex.function(ref)
+    rets = P.flat_rets(U.unwrap_delegation(ex.function(ref)))
     ret, t = U.split_result(ctx, rets, "fingerprint_url")
     return ref, rets, t
 
